@@ -1,26 +1,13 @@
-"""Per-property check specifications (stages, bounds, evidence rule)."""
+"""Per-property check specifications: one module per property under vf/specs/ (cNN.py defining SPEC)."""
+import importlib
+import os
+import re
 
-ASSUME_COMMON = [
-    "little-endian x86-64 host only; big-endian branches of Platform.hh/Encoding.hh are never executed",
-    "g++ 12 ASan/UBSan runtime reports are trusted; ASan red zones miss intra-object and far out-of-bounds accesses",
-    "verdict covers only the executions produced by this run (seeded generators + enumerated small scopes)",
-]
+from .props_common import ASSUME_COMMON  # noqa: F401
 
 SPECS = {}
-
-SPECS["C20"] = {
-    "level": "exploration",
-    "rule": "gcd/reduce_fraction: all pairs in [0,300]^2 (or full width) per integer type + 2^k±1 boundary pairs + random; "
-            "log2i: 2^k-1,2^k,2^k+1 for every k of every width, all 8/16-bit values, random; random_int: boundary spans; "
-            "random_data: sizes crossing the 4096-byte refill inside canaries; Vector2/3 exhaustive over [-4,4]^n pairs, "
-            "Vector4 sampled; Matrix4 random small-int (exact) and strictly diagonally dominant double matrices. "
-            "distinct_nontrivial = distinct (helper, type, operand-shape) classes observed, e.g. gcd:u16:coprime, log2i:u64:bit47.",
-    "stages": [
-        {"name": "c20", "variant": "asan", "shards": (16, 16)},
-    ],
-    "min_evaluations": 100000,
-    "min_classes": 200,
-    "required_classes": ["gcd:u64:*", "gcd:i8:*", "log2i:u64:bit63", "log2i:u8:bit7", "log2i:i16:bit14", "random_int:*",
-                         "random_data:>8192", "v2:*", "v3:*", "v4:*", "matrix:int:*", "matrix:dominant:*"],
-    "assumptions": ASSUME_COMMON + ["random_data 'every position rewritten' monitor has a 256^-8 per-position false-alarm probability"],
-}
+_d = os.path.join(os.path.dirname(os.path.abspath(__file__)), "specs")
+for _fn in sorted(os.listdir(_d)):
+    _m = re.match(r"^c(\d\d)\.py$", _fn)
+    if _m:
+        SPECS["C" + _m.group(1)] = importlib.import_module("vf.specs." + _fn[:-3]).SPEC
